@@ -154,9 +154,11 @@ func TestC15Auth(t *testing.T) {
 	rep := vh.NewReport("C15", "authorisation of every validated route (exhaustive enumeration against the real server)")
 	defer rep.Write()
 	srcLists := [][]string{nil, {"a"}, {"a", "b/c"}}
-	keyLists := [][]string{nil, {"k"}, {"k", "l"}}
-	srcVals := []string{"a", "b/c", "z", "", "A", "a/", "b", "a.*", ".*", "b/c/..", "a b"}
-	keyVals := []string{"k", "l", "wrong", "", "K", "k ", ".*"}
+	// (a key may contain ':' - the project's own client ids are key:uid - so the pair (a, "k:x")
+	// and the pair ("a:k", x) must not be confused)
+	keyLists := [][]string{nil, {"k"}, {"k", "l"}, {"k", "k:x"}}
+	srcVals := []string{"a", "b/c", "z", "", "A", "a/", "b", "a.*", ".*", "b/c/..", "a b", "a:k"}
+	keyVals := []string{"k", "l", "wrong", "", "K", "k ", ".*", "k:x", "x"}
 	type route struct {
 		method, path string
 		body         bool
